@@ -44,6 +44,8 @@ def prefix_key(hist):
 
 
 class Replayer:
+    rg_route = "setter"      # how `setrg` is issued: the requires_grad setter, or Module.freeze() / unfreeze() ("module")
+
     def __init__(self, sg, dtype=np.float32, gdtype=None):
         self.sg = sg
         self.dtype = np.dtype(dtype)
@@ -148,6 +150,11 @@ class Replayer:
                             out = [ch[0].sum()]
                         elif op == "idx":
                             out = [ch[0][call["k"] - 1]]
+                        elif op == "gather":
+                            ix = [[0, 0], [1, 1], [1, 0]][call["k"] - 1]
+                            # three public spellings of an integer-sequence index
+                            form = (len(nodes) + call["k"]) % 3
+                            out = [ch[0][ix] if form == 0 else ch[0][np.array(ix)] if form == 1 else ch[0][(ix,)]]
                         elif op == "stack":
                             out = [sg.stack([ch[0], ch[1]])]
                         elif op == "unbind":
@@ -157,7 +164,14 @@ class Replayer:
                         for o in out:
                             add_node(o)
                     elif a == "setrg":
-                        nodes[call["t"] - 1].requires_grad = call["b"]
+                        tgt = nodes[call["t"] - 1]
+                        if self.rg_route == "module" and isinstance(tgt, sg.nn.Parameter):
+                            # the other public route to the flag: the parameter sits on a module that is (un)frozen
+                            holder = sg.nn.Module()
+                            holder.p = tgt
+                            (holder.unfreeze if call["b"] else holder.freeze)()
+                        else:
+                            tgt.requires_grad = call["b"]
                     elif a == "retain":
                         nodes[call["t"] - 1].retain_grad()
                     elif a == "detach":
